@@ -600,6 +600,7 @@ func (r *ChunkReader) resolveSeekPosition() error {
 
 	// Walk the branch nodes until we find the leaf node containing the
 	// seekPosition.
+	cOffset := r.rootNodeCOffset
 	cBias := int64(0)
 	dBias := int64(0)
 	for {
@@ -623,12 +624,21 @@ func (r *ChunkReader) resolveSeekPosition() error {
 		childDBias := r.currNode.dOff(i, dBias)
 		childDSize := r.currNode.dSize(i)
 
+		// Rule out infinite loops, as per the RAC spec's "Search Within a
+		// Branch Node" section: either the child's COffset or its DPtrMax
+		// (which loadAndValidate checks is childDSize) must be smaller.
+		if (childCOffset >= cOffset) && (childDSize >= r.currNode.dPtrMax()) {
+			r.err = errInvalidIndexNode
+			return r.err
+		}
+
 		if err := r.loadAndValidate(childCOffset,
 			parentCodec, parentCodecHasMixBit, parentVersion, parentCOffMax,
 			childCBias, childDSize); err != nil {
 			return err
 		}
 
+		cOffset = childCOffset
 		cBias = childCBias
 		dBias = childDBias
 	}
